@@ -303,16 +303,29 @@ fn main() {
     // corridor (every state has one real successor plus a self-loop / ignored action), star (one hub with
     // thousands of leaves), many initial states; the witness of p1/p2 sits at the far end / last leaf.
     if prop == "c01" || prop == "c02" || prop == "c03" || prop == "c13" {
-        let shapes = ["corridor", "star", "many-init", "comb"];
+        let shapes = ["corridor", "star", "many-init", "comb", "wide-tree"];
         let reps = if th { 6 } else { 1 };
         for rep in 0..reps {
             for shape in shapes {
-                let n = 1800 + r.below(if th { 4000 } else { 1500 });
+                let n = if shape == "wide-tree" { 3613 } else { 1800 + r.below(if th { 4000 } else { 1500 }) };
                 let mut adj: Vec<Vec<Option<u16>>> = vec![vec![]; n];
                 let mut init: Vec<u16> = vec![0];
                 match shape {
                     "corridor" => { for s in 0..n - 1 { adj[s] = vec![Some(s as u16), Some((s + 1) as u16), None]; } }
                     "star" => { adj[0] = (1..n).map(|t| Some(t as u16)).collect(); }
+                    "wide-tree" => {
+                        // root -> 12 -> 144 -> 1728 nodes, each of the 1728 with one more child: the 1500-job block
+                        // boundary falls where the queue holds jobs of two depths
+                        let b = 12usize;
+                        let mut next = 1usize;
+                        let mut level: Vec<usize> = vec![0];
+                        for _ in 0..3 {
+                            let mut nl = vec![];
+                            for &u in &level { for _ in 0..b { if next < n { adj[u].push(Some(next as u16)); nl.push(next); next += 1; } } }
+                            level = nl;
+                        }
+                        for &u in &level { if next < n { adj[u].push(Some(next as u16)); next += 1; } }
+                    }
                     "many-init" => { init = (0..n as u16).collect(); for s in 0..n { if s % 7 == 0 && s + 1 < n { adj[s] = vec![Some((s + 1) as u16)]; } } }
                     _ => { // comb: a spine with a tooth of length 2 at every spine state
                         let spine = n / 3;
@@ -368,6 +381,17 @@ fn main() {
                             if prop == "c13" && strat == "bfs" {
                                 let lens: Vec<usize> = vs.iter().map(|p| p.len()).collect();
                                 if lens.windows(2).any(|w| w[0] > w[1]) { out.v("big1-bfs-depths-decrease", &desc); }
+                                // independent BFS distances: every visited path and every discovery is shortest
+                                let mut dist = vec![usize::MAX; n];
+                                let mut q = std::collections::VecDeque::new();
+                                for &s0 in &g.init { if g.bnd[s0 as usize] && dist[s0 as usize] == usize::MAX { dist[s0 as usize] = 0; q.push_back(s0); } }
+                                while let Some(u) = q.pop_front() {
+                                    for t in g.adj[u as usize].iter().flatten() {
+                                        if g.bnd[*t as usize] && dist[*t as usize] == usize::MAX { dist[*t as usize] = dist[u as usize] + 1; q.push_back(*t); }
+                                    }
+                                }
+                                if vs.iter().any(|p| p.len() != dist[*p.last().unwrap() as usize] + 1) { out.v("big1-bfs-visited-path-not-shortest", &desc); }
+                                for (i, p) in &disc { if p.len() != dist[*p.last().unwrap() as usize] + 1 { out.v("big1-bfs-discovery-not-shortest", &format!("{} prop={}", desc, i)); } }
                             }
                             out.stat("big-single-thread-runs");
                             out.stat(&format!("big-shape-{}", shape));
